@@ -22,7 +22,9 @@ and for the builder fan-in (`fromModelStream`, any arrival order):
 * `C19_error_stops`, `C19_error_reported`, `C19_error_never_success` — after a failure nothing new is started,
   the run ends, the reported error is the error of a stage function on the item it held, never success
 * `C19_accept_*`, `C19_labelled_*`  — what acceptance of a logged trace by the relaxed acceptor implies
-* `C19_no_loss_no_dup`, `C19_build_sorted`, `C19_build_same_days` — loader → builder
+* `C19_fan_progress`, `C19_fan_terminates`, `C19_fan_stuck_without_drain` — the loader's fan-in cannot block while its
+  consumer drains, and blocks for ever if it stops early
+* `C19_no_loss_no_dup`, `C19_census`, `C19_build_sorted`, `C19_build_same_days` — loader → builder
 
 PARTIAL (`C19_race_free_partial`): "no data races" is a statement about the Go memory model.  The model's
 stage functions can by construction touch only their private state and the item they own; that the real
@@ -248,6 +250,34 @@ theorem C19_build_sorted (b : Builder) : b.build.Pairwise (fun x y => x.date ≤
 /-- … and they are the builder's days, nothing else -/
 theorem C19_build_same_days (b : Builder) : b.build.Perm b := build_perm b
 
+/-! ### loader fan-in (producers → one draining consumer) -/
+
+/-- **the loader cannot block while its consumer drains**: with files still pending, a hand-over is enabled. -/
+theorem C19_fan_progress (pf : Bool) (s : Fan) (hd : s.draining = true) (hp : ¬ s.finished) :
+    ∃ s', fanStep pf s .push = some s' := by
+  have : 0 < s.pending := Nat.pos_of_ne_zero hp
+  simp [fanStep, this, hd]
+
+/-- … it ends after at most `pending + 1` steps, every file is handed over at most once, and if no producer's
+context was cancelled every pending file has been delivered exactly once when the run is finished. -/
+theorem C19_fan_terminates {pf : Bool} {s s' : Fan} {ls : List FanLabel} (h : FanRun pf s ls s') :
+    ls.length ≤ s.pending + 1 ∧ s'.delivered ≤ s.delivered + s.pending ∧
+    (s'.finished → s'.cancelled = false → s'.delivered = s.delivered + s.pending) := by
+  obtain ⟨h1, h2, _, h4, h5⟩ := fan_run_counts h
+  have hc := fan_cancel_once h
+  have hlen := fan_length ls
+  refine ⟨by omega, by omega, ?_⟩
+  intro hf hnc
+  have := h5 hnc
+  unfold Fan.finished at hf
+  omega
+
+/-- **why `FromStream` must drain**: a consumer that stopped receiving while files are pending and nothing cancels
+the producers' context leaves no step enabled — the producers block for ever and `p.Wait()` never returns. -/
+theorem C19_fan_stuck_without_drain (s : Fan) (hd : s.draining = false) (hc : s.cancelled = false) (l : FanLabel) :
+    fanStep false s l = none := by
+  cases l <;> simp [fanStep, hd, hc]
+
 /-! ### non-vacuity -/
 
 /-- a two-stage system over three numbers: stage 1 adds its running count, stage 2 doubles -/
@@ -265,5 +295,7 @@ example : (fromModelStream [[⟨3, .open_, 1⟩], [⟨3, .open_, 2⟩, ⟨4, .pr
 example : censusOK [⟨3, .open_, 1⟩, ⟨4, .price, 3⟩] [⟨4, .price, 3⟩, ⟨3, .open_, 1⟩] = false := by decide
 example : censusOK [⟨3, .open_, 1⟩, ⟨4, .price, 3⟩] [⟨3, .open_, 1⟩] = false := by decide
 example : censusOK [⟨3, .open_, 1⟩, ⟨4, .price, 3⟩] [⟨3, .open_, 1⟩, ⟨4, .price, 3⟩] = true := by decide
+example : fanStep false ⟨3, 0, true, false⟩ .push = some ⟨2, 1, true, false⟩ := by decide
+example : fanStep true ⟨3, 0, false, false⟩ .cancel = some ⟨3, 0, false, true⟩ := by decide
 
 end Knut.C19
